@@ -300,7 +300,9 @@ class HTTPRequestParser:
             # For example \x85 is stripped by default, but it is not considered
             # valid whitespace to be stripped by RFC7230.
             encodings = [
-                encoding.strip(" \t").lower() for encoding in te.split(",") if encoding
+                encoding.strip(" \t").lower()
+                for encoding in te.split(",")
+                if encoding.strip(" \t")
             ]
 
             for encoding in encodings:
